@@ -24,14 +24,19 @@ type txProg struct {
 func schemas(variant int) []*m.Schema {
 	a := &m.Schema{Name: "a", Cols: []m.Col{{Name: "id", Kind: m.Int, NotNull: true}, {Name: "n", Kind: m.Int}, {Name: "s", Kind: m.Str, NotNull: true}, {Name: "b", Kind: m.Bool}}, Index: []string{"n"}}
 	g := &m.Schema{Name: "g", AutoInc: true, Cols: []m.Col{{Name: "id", Kind: m.Int, NotNull: true}, {Name: "n", Kind: m.Int}, {Name: "s", Kind: m.Str}}}
-	c := &m.Schema{Name: "c", Cols: []m.Col{{Name: "id", Kind: m.Int, NotNull: true}, {Name: "n", Kind: m.Int, NotNull: true}, {Name: "s", Kind: m.Str}}}
+	c := &m.Schema{Name: "c", Cols: []m.Col{{Name: "id", Kind: m.Int, NotNull: true}, {Name: "n", Kind: m.Int, NotNull: true}, {Name: "s", Kind: m.Str}},
+		Checks: map[string]m.Cmp{checkName: {Col: "n", Op: "<", Val: int64(100)}}}
 	if variant%2 == 1 {
 		g.Index = []string{"n"}
 	}
 	return []*m.Schema{a, g, c}
 }
 
+const checkName = "c_n_max" // CHECK (n < 100) on table c
+
 type gen struct {
+	ddl     bool // this case generates DDL inside transactions
+	violate bool // values for table c may violate its CHECK constraint
 	r       *rand.Rand
 	sch     []*m.Schema
 	tag     string // unique prefix of the payloads of this program
@@ -46,6 +51,9 @@ func (g *gen) payload() string { g.seq++; return fmt.Sprintf("%s.%d", g.tag, g.s
 func (g *gen) val(c m.Col, allowNull bool) m.Val {
 	if !c.NotNull && allowNull && g.r.IntN(5) == 0 {
 		return nil
+	}
+	if g.violate && c.Kind == m.Int && c.NotNull && g.r.IntN(8) == 0 {
+		return int64(100 + g.r.IntN(50)) // violates CHECK (n < 100) of table c while that constraint is in force
 	}
 	switch c.Kind {
 	case m.Int:
@@ -81,7 +89,7 @@ func (g *gen) pred(s *m.Schema, forHint, dml bool) m.Pred {
 		switch {
 		case ci > 0 && !c.NotNull && g.r.IntN(5) == 0:
 			op := []string{"isnull", "notnull"}[g.r.IntN(2)]
-			if indexed(s, c.Name) && !forHint && (dml || g.multi) {
+			if g.maybeIndexed(s, c.Name) && !forHint && g.multi {
 				op = "notnull"
 			}
 			p = append(p, m.Cmp{Col: c.Name, Op: op})
@@ -90,7 +98,7 @@ func (g *gen) pred(s *m.Schema, forHint, dml bool) m.Pred {
 			p = append(p, m.Cmp{Col: c.Name, Op: []string{"<", "<=", ">", ">=", "=", "<>"}[g.r.IntN(6)], Val: v})
 		case c.Kind == m.Int:
 			ops := []string{"<", "<=", ">", ">=", "<>"}
-			if forHint || !indexed(s, c.Name) || (!dml && !g.multi) {
+			if forHint || !g.maybeIndexed(s, c.Name) || !g.multi {
 				ops = append(ops, "=")
 			}
 			p = append(p, m.Cmp{Col: c.Name, Op: ops[g.r.IntN(len(ops))], Val: int64(g.r.IntN(10))})
@@ -101,6 +109,10 @@ func (g *gen) pred(s *m.Schema, forHint, dml bool) m.Pred {
 		}
 	}
 	return p
+}
+
+func (g *gen) maybeIndexed(s *m.Schema, col string) bool {
+	return indexed(s, col) || (g.ddl && s.Name == "c" && col == "s") // CREATE INDEX ON c(s) may have been committed
 }
 
 func indexed(s *m.Schema, col string) bool {
@@ -153,6 +165,8 @@ func (g *gen) insertRow(s *m.Schema, cols []string, fresh bool) []m.Val {
 
 func (g *gen) dml(s *m.Schema) *m.Stmt {
 	g.written[s.Name] = true
+	g.violate = s.Name == "c"
+	defer func() { g.violate = false }()
 	k := g.r.IntN(10)
 	switch {
 	case k < 4 || (s.AutoInc && k < 6):
@@ -219,9 +233,19 @@ func (g *gen) fault(s *m.Schema) *m.Stmt {
 	return st
 }
 
-func genProg(r *rand.Rand, sch []*m.Schema, tag string, sess int, multi, readOnly bool) *txProg {
-	g := &gen{r: r, sch: sch, tag: tag, sess: sess, multi: multi, written: map[string]bool{}}
+func genProg(r *rand.Rand, sch []*m.Schema, tag string, sess int, multi, readOnly, ddl bool) *txProg {
+	g := &gen{r: r, sch: sch, tag: tag, sess: sess, multi: multi, ddl: ddl, written: map[string]bool{}}
 	p := &txProg{ReadOnly: readOnly, FaultAt: -1}
+	cs := sch[2]
+	if readOnly && ddl && r.IntN(4) == 0 {
+		// probe for a column that only a COMMITTED ALTER TABLE … ADD COLUMN may have created
+		p.Stmts = []*m.Stmt{{Kind: m.Count, Table: cs.Name, Where: m.Pred{{Col: fmt.Sprintf("x%d", r.IntN(3)), Op: "isnull"}}}}
+		p.End = "cancel"
+		return p
+	}
+	if !readOnly && ddl && r.IntN(5) == 0 {
+		return g.ddlProg(p, cs)
+	}
 	if readOnly {
 		n := 2 + r.IntN(4)
 		for i := 0; i < n; i++ {
@@ -313,6 +337,53 @@ func genProg(r *rand.Rand, sch []*m.Schema, tag string, sess int, multi, readOnl
 	}
 	if len(p.Stmts) == 0 {
 		p.Stmts = append(p.Stmts, g.dml(sch[0]))
+	}
+	return p
+}
+
+// ddlProg: DDL mixed with DML and queries in one explicit transaction (no savepoints), ending
+// in COMMIT less often than in ROLLBACK / Cancel so that the constraint stays in force for a while.
+func (g *gen) ddlProg(p *txProg, cs *m.Schema) *txProg {
+	r := g.r
+	p.BeginStmt = r.IntN(2) == 0
+	p.Script = r.IntN(8) == 0
+	switch e := r.IntN(10); {
+	case e < 3 || p.Script:
+		p.End = "commit"
+	case e < 7:
+		p.End = "rollback"
+	default:
+		p.End = "cancel"
+	}
+	n := 2 + r.IntN(5)
+	ddlAt := r.IntN(n - 1)
+	for i := 0; i < n; i++ {
+		switch {
+		case i == ddlAt || r.IntN(8) == 0:
+			switch k := r.IntN(10); {
+			case k < 6:
+				p.Stmts = append(p.Stmts, &m.Stmt{Kind: m.DropCheck, Table: cs.Name, Name: checkName})
+			case k < 8:
+				p.Stmts = append(p.Stmts, &m.Stmt{Kind: m.AddColumn, Table: cs.Name, Name: fmt.Sprintf("x%d", r.IntN(3))})
+			default:
+				p.Stmts = append(p.Stmts, &m.Stmt{Kind: m.CreateIndex, Table: cs.Name, Name: "s"})
+			}
+			g.written[cs.Name] = true
+		case r.IntN(3) == 0 && !p.Script:
+			p.Stmts = append(p.Stmts, g.query(g.sch[r.IntN(len(g.sch))]))
+		case r.IntN(2) == 0:
+			// a write to the constrained table, often one that the constraint forbids
+			st := &m.Stmt{Kind: m.Insert, Table: cs.Name, Cols: colNames(cs)}
+			row := g.insertRow(cs, st.Cols, true)
+			if r.IntN(2) == 0 {
+				row[1] = int64(100 + r.IntN(50))
+			}
+			st.Rows = [][]m.Val{row}
+			g.written[cs.Name] = true
+			p.Stmts = append(p.Stmts, st)
+		default:
+			p.Stmts = append(p.Stmts, g.dml(g.sch[r.IntN(len(g.sch))]))
+		}
 	}
 	return p
 }
